@@ -22,14 +22,17 @@ import (
 // entries ending in "/" are (empty) directories
 var universe = []string{"a", "b", "d/a", "d/b", "d/e/a", "d/e/b", "d/f", "da", ".uploads/x/0001.part", "e/"}
 
+// names that extend the directory name "d" by a byte below '/' (filer order differs from
+// key order there), an empty folder inside a non-empty one, a nested all-empty folder:
+// each is added with probability 1/3
+var universe2 = []string{"d-x", "d.x", "d!", "d/g/", "e/h/"}
+
 var prefixes = []string{"", "d", "d/", "d/e", "da", "x"}
 var oddPrefixes = []string{"d/e/", "d//", "/d/", ".uploads/", ".uploads/x/", "/", "d/../d/"}
 var maxKeysChoices = []int{1, 2, 3, 4, 1000}
 var styles = []string{"V2Token", "V1NextMarker", "V1LastKey", "V2StartAfter"}
-// (markers with an empty segment such as "/a" or "d//a" are not generated: with a
-// delimiter they make one request delete a non-empty folder and then list it again,
-// which the immutable-tree model does not follow; see checks/C27.json assumptions)
-var oddStarts = []string{"a", "b", "d", "d/", "d/a", "d/b", "d/e", "d/e/", "d/e/a", "da", "e", "zz", ".uploads/", ".uploads/x/", "x/y/z"}
+var oddStarts = []string{"a", "b", "d", "d/", "d/a", "d/b", "d/e", "d/e/", "d/e/a", "da", "e", "zz", ".uploads/", ".uploads/x/", "x/y/z",
+	"d-x", "d.x", "d!", "d-", "d-x/a", "d/g", "e/h", "/", "/a", "d//a", "//", "d//"}
 
 const pageCap = 14
 
@@ -78,14 +81,30 @@ func coqKids(n *node) string {
 	return hx.List(xs)
 }
 
+// buildItems is the closed item set of a tree (every directory as "path/").
+func buildItems(items []string) []string {
+	var out []string
+	var walk func(n *node, pre string)
+	walk = func(n *node, pre string) {
+		for k, c := range n.kids {
+			if c.dir {
+				out = append(out, pre+k+"/")
+				walk(c, pre+k+"/")
+			} else {
+				out = append(out, pre+k)
+			}
+		}
+	}
+	walk(buildTree(items), "")
+	return out
+}
+
 // ---------- the world ----------
 
 const bucketDir = s3env.BucketsPath + "/b"
 
 type world struct {
-	env   *s3env.Env
-	items []string
-	snap  string
+	env *s3env.Env
 }
 
 func (w *world) build(items []string) {
@@ -98,18 +117,20 @@ func (w *world) build(items []string) {
 			w.env.PutFile(bucketDir+"/"+it, []byte("x"))
 		}
 	}
-	w.items = items
-	w.snap = w.env.SnapshotString(s3env.BucketsPath)
 }
 
-// restore undoes what a LIST request did to the bucket (the gateway deletes the
-// folders it finds empty), so that every page is served from the same tree.
-func (w *world) restore() bool {
-	if w.env.SnapshotString(s3env.BucketsPath) == w.snap {
-		return false
+// current reads the bucket back from the raw store: the items (files, and every
+// directory as "path/") that exist now.  A LIST request deletes folders.
+func (w *world) current() []string {
+	var items []string
+	for _, n := range w.env.Snapshot(bucketDir) {
+		rel := strings.TrimPrefix(n.Path, bucketDir+"/")
+		if n.IsDir {
+			rel += "/"
+		}
+		items = append(items, rel)
 	}
-	w.build(w.items)
-	return true
+	return items
 }
 
 // ---------- one page ----------
@@ -142,7 +163,7 @@ type params struct {
 	start   string
 }
 
-func (w *world) page(p params, marker string) (page, bool) {
+func (w *world) page(p params, marker string) page {
 	q := url.Values{}
 	v2 := p.style == "V2Token" || p.style == "V2StartAfter"
 	if v2 {
@@ -184,8 +205,7 @@ func (w *world) page(p params, marker string) (page, bool) {
 	for _, c := range lr.CommonPrefixes {
 		pg.cps = append(pg.cps, c.Prefix)
 	}
-	changed := w.restore()
-	return pg, changed
+	return pg
 }
 
 // lastKey is the last item of the page in S3 (byte) order.
@@ -208,11 +228,10 @@ func lastKey(pg page) (string, bool) {
 
 // paginate is the client: it continues as the style says until a page is not
 // truncated (or it cannot continue, or pageCap pages were read).
-func (w *world) paginate(p params) (pages []page, deleted bool) {
+func (w *world) paginate(p params) (pages []page) {
 	marker := p.start
 	for len(pages) < pageCap {
-		pg, ch := w.page(p, marker)
-		deleted = deleted || ch
+		pg := w.page(p, marker)
 		pages = append(pages, pg)
 		if !pg.trunc {
 			break
@@ -234,7 +253,8 @@ func (w *world) paginate(p params) (pages []page, deleted bool) {
 // Coq string literals are slow to parse, so known segment names are printed as the
 // constants defined in check/C27.v and composite strings as J [segments].
 var segIdent = map[string]string{"": "s_", "a": "sa", "b": "sb", "d": "sd", "da": "sda", "e": "se", "f": "sf",
-	"x": "sx", "y": "sy", "z": "sz", "zz": "szz", ".uploads": "sup", "0001.part": "spart"}
+	"x": "sx", "y": "sy", "z": "sz", "zz": "szz", ".uploads": "sup", "0001.part": "spart",
+	"d-x": "sdm", "d.x": "sdp", "d!": "sdb", "g": "sg", "h": "sh"}
 
 func coqSeg(s string) string {
 	if id, ok := segIdent[s]; ok {
@@ -277,7 +297,7 @@ type spec struct {
 
 func main() {
 	out := hx.Flags("C27", 400)
-	out.Rule = "bucket trees = subsets of {a, b, d/a, d/b, d/e/a, d/e/b, d/f, da, .uploads/x/0001.part, e/ (empty dir)} created through filer.Filer.CreateEntry (inline content) over leveldb2; prefix in {\"\", d, d/, d/e, da, x} (1 in 12: an odd prefix such as d//, /d/, .uploads/), delimiter \"\" or /, max-keys in {1,2,3,4,1000}, allowEmptyFolder on/off, continuation style in {V2 continuation-token, V1 NextMarker, V1 last key as marker, V2 last key as start-after}; 1 case in 8 starts from an arbitrary marker/start-after; every case is a FULL pagination loop (at most 14 pages) through the real S3 router and the real filer gRPC ListEntries; the bucket is restored after any page that deleted empty folders; the first 5 cases are the fixed witnesses of the known findings; non-trivial = some page holds a key; distinct = canonical input"
+	out.Rule = "bucket trees = subsets of {a, b, d/a, d/b, d/e/a, d/e/b, d/f, da, .uploads/x/0001.part, e/ (empty dir)} plus each of {d-x, d.x, d! (extend a directory name by a byte below '/'), d/g/ (empty folder in a non-empty one), e/h/} with probability 1/3, created through filer.Filer.CreateEntry (inline content) over leveldb2; prefix in {\"\", d, d/, d/e, da, x} (1 in 12: an odd prefix such as d//, /d/, .uploads/), delimiter \"\" or /, max-keys in {1,2,3,4,1000}, allowEmptyFolder on/off, continuation style in {V2 continuation-token, V1 NextMarker, V1 last key as marker, V2 last key as start-after}; 1 case in 8 starts from an arbitrary marker/start-after (27 choices, among them d.x, d-x, d!, and markers with an empty segment: /, /a, d//a, //, d//); every case is a FULL pagination loop (at most 14 pages) through the real S3 router and the real filer gRPC ListEntries; the bucket is NOT restored between pages (a delimiter listing deletes folders), the bucket tree after the last request is read back from the raw store and compared; the first 10 cases are the fixed witnesses of the known findings; non-trivial = some page holds a key; distinct = canonical input"
 	env := s3env.New(s3env.Options{})
 	defer env.Close()
 	w := &world{env: env}
@@ -290,6 +310,10 @@ func main() {
 		{[]string{"d/e/a", "d/e/b", "d/f", "da"}, params{false, "", 1, false, "V2Token", ""}, "witness-k3"},
 		{[]string{".uploads/x/0001.part", "a"}, params{false, ".uploads/", 1000, false, "V2Token", ""}, "witness-k4"},
 		{[]string{"d/e/a", "da"}, params{false, "", 1000, false, "V2StartAfter", "d"}, "witness-k5"},
+		{[]string{"d/a", "d.x"}, params{false, "", 1000, false, "V2StartAfter", "d.x"}, "witness-k6"},
+		{[]string{"d/a", "d/b", "d.x"}, params{false, "", 1000, false, "V1NextMarker", "d/a"}, "witness-k6"},
+		{[]string{"a", "d/a", "d/e/a", "da"}, params{false, "", 1000, true, "V1NextMarker", "/"}, "witness-k7"},
+		{[]string{"a", "d/a", "d/e/a", "da"}, params{false, "d//", 1000, true, "V2Token", ""}, "witness-k7"},
 	}
 
 	for i := 0; i < out.N; i++ {
@@ -301,6 +325,11 @@ func main() {
 			// subset: each entry with probability 2/3, so that full-ish trees are common
 			for _, u := range universe {
 				if r.Chance(2, 3) {
+					s.items = append(s.items, u)
+				}
+			}
+			for _, u := range universe2 {
+				if r.Chance(1, 3) {
 					s.items = append(s.items, u)
 				}
 			}
@@ -322,7 +351,9 @@ func main() {
 			}
 		}
 		w.build(s.items)
-		pages, deleted := w.paginate(s.p)
+		pages := w.paginate(s.p)
+		final := w.current()
+		deleted := len(final) != len(buildItems(s.items))
 
 		ps := make([]string, len(pages))
 		nontrivial := false
@@ -334,8 +365,8 @@ func main() {
 			}
 			nkeys += len(pg.keys)
 		}
-		term := fmt.Sprintf("{| c_ae := %s; c_tree := %s; c_prefix := %s; c_maxkeys := %s; c_delim := %s; c_style := %s; c_start := %s; c_cap := %s; c_pages := %s |}",
-			hx.Bool(s.p.ae), coqKids(buildTree(s.items)), coqStr(s.p.prefix), hx.Z(int64(s.p.maxKeys)), hx.Bool(s.p.delim), s.p.style, coqStr(s.p.start), hx.Nat(pageCap), hx.List(ps))
+		term := fmt.Sprintf("{| c_ae := %s; c_tree := %s; c_prefix := %s; c_maxkeys := %s; c_delim := %s; c_style := %s; c_start := %s; c_cap := %s; c_pages := %s; c_final := %s |}",
+			hx.Bool(s.p.ae), coqKids(buildTree(s.items)), coqStr(s.p.prefix), hx.Z(int64(s.p.maxKeys)), hx.Bool(s.p.delim), s.p.style, coqStr(s.p.start), hx.Nat(pageCap), hx.List(ps), coqKids(buildTree(final)))
 		canon := fmt.Sprintf("%v|%+v", s.items, s.p)
 		out.Add(term, canon, nontrivial, s.kind)
 		out.Count("style:"+s.p.style, 1)
